@@ -147,10 +147,12 @@ def observe_point(B, xq, dqs, res, stage, sp, f, space_name, expected=None, deg=
             res['events'].append((ev, det(kind='grad', d=dq)))
         # relational clause for functionals whose values the specification cannot differentiate exactly
         smooth = None
+        noexact = deg == 99 or deg > 4
         if expected is not None:
             e = [t for t in expected['dds'] if t['d'] == dq]
             smooth = bool(e and e[0].get('sm'))
-        if want_cd and deg == 99 and di == 0 and smooth is not False:
+            noexact = noexact or not (e and fu.known(e[0]['dd']))     # no exact expectation from the stencil here
+        if want_cd and noexact and di == 0 and smooth is not False:
             errs = []
             try:
                 for h in (2.0 ** -7, 2.0 ** -8):
@@ -235,8 +237,8 @@ def linear_flag(B, rec, res, stage, sp, f, space_name, log=True, opaque=False, p
 
 
 class GB(fu.Built):
-    def __init__(self, sp, f, variant=0):
-        fu.Built.__init__(self, sp, f, variant)
+    def __init__(self, sp, f, variant=0, layout=0):
+        fu.Built.__init__(self, sp, f, variant, layout=layout)
         try:
             self.grad = self.func.gradient
         except NotImplementedError:
@@ -265,7 +267,7 @@ def replay_program(arg):
     res = _new_res()
     for variant in ([0] if (quick or rec['k'] > 1) else [0, 1]):
         try:
-            B = GB(sp, f, variant)
+            B = GB(sp, f, variant, layout=(rec.get('idx', 0) + variant + seed) % 4)
         except (NotImplementedError, fu.Unbuildable):
             return res
         except Exception as e:
@@ -289,8 +291,10 @@ def replay_program(arg):
         if B.grad is not None:
             lipschitz(B, pts, res, 'replay', sp, f, rec['space'], cap=(4 if quick else 8) if variant == 0 else 0)
         linear_flag(B, rec, res, 'replay', sp, f, rec['space'], log=variant == 0)
-        for _, d in res['viol'][n0:]:
+        for s_, d in res['viol'][n0:]:
             d['variant'] = variant
+            d['layout'] = B.layout
+            s_['layout'] = 'one-axis' if B.layout == 0 else 'multi-axis'
     return res
 
 
@@ -328,26 +332,160 @@ def driver_programs(quick, rnd):
                  lambda g: mkf('Bregman', v=rv(), u=rv(), args=[g]),
                  lambda g: mkf('Sum', args=[g, rnd.choice(smooth2)]),
                  lambda g: mkf('Prod', args=[g, rnd.choice(smooth2)]),
-                 lambda g: mkf('Quot', args=[g, mkf('AddConst', 0, 1, args=[mkf('L2sq')])])]
+                 lambda g: mkf('Quot', args=[g, mkf('AddConst', 0, 1, args=[mkf('L2sq')])]),
+                 # nonlinear inner operators (domain = range): f o PowerOperator(k), and compositions of them
+                 lambda g: mkf('CompPow', 2, args=[g]),
+                 lambda g: mkf('CompPow', 3, args=[g]),
+                 lambda g: mkf('CompPow', 2, args=[mkf('Translate', u=rv(), args=[g])]),
+                 lambda g: mkf('Sum', args=[mkf('CompPow', 2, args=[g]), rnd.choice(smooth2)]),
+                 lambda g: mkf('Prod', args=[mkf('CompPow', 2, args=[g]), rnd.choice(smooth2)])]
         for leaf in leaves:
             picks = rules if not quick else [rules[0]] + rnd.sample(rules[1:], 3)
             for rule in picks:
                 prog = rule(leaf)
                 if prog['op'] == 'RVec' and kind == 'pspace':
                     continue
+                if 'CompPow' in fu.ops_of(prog) and m != 1:
+                    continue
                 out.append(((kind, m, n, W), prog))
     return out
 
 
+def nonlinear_recipes():
+    """FunctionalComp with NONLINEAR inner operators outside the catalogue of the specification (relational):
+    ufunc operators, point-wise products, a nonlinear operator into ANOTHER space, compositions of compositions,
+    products / quotients with such compositions."""
+    import odl
+    S = fu.S
+    out = []
+    spaces = [('rn3', lambda: odl.rn(3)), ('rn3w', lambda: odl.rn(3, weighting=4.0)),
+              ('discr(1,3)', lambda: odl.uniform_discr([0, 0], [2, 1.5], (1, 3)))]
+    outer = [('L2sq', lambda X: S.L2NormSquared(X)), ('lin', lambda X: S.QuadraticForm(vector=X.one() * 2)),
+             ('Huber', lambda X: S.Huber(X, 0.5)), ('L1', lambda X: S.L1Norm(X))]
+    inner = [('exp', lambda X: odl.ufunc_ops.exp(X)), ('sin', lambda X: odl.ufunc_ops.sin(X)),
+             ('square', lambda X: odl.ufunc_ops.square(X)), ('pow3', lambda X: odl.PowerOperator(X, 3)),
+             ('x*x', lambda X: odl.OperatorPointwiseProduct(odl.IdentityOperator(X), odl.IdentityOperator(X))),
+             ('pow2(pow3)', lambda X: odl.PowerOperator(X, 2) * odl.PowerOperator(X, 3)),
+             ('sin(2x+1)', lambda X: odl.ufunc_ops.sin(X) * (2 * odl.IdentityOperator(X) + X.one()))]
+    for snm, mkX in spaces:
+        for onm, mko in outer:
+            for inm, mki in inner:
+                out.append(('%s o %s' % (onm, inm), snm, lambda mkX=mkX, mko=mko, mki=mki: _nl(mkX(), mko, mki, None)))
+        # compositions of compositions, products and quotients with compositions
+        out.append(('(L2sq o pow3) o sin', snm, lambda mkX=mkX: _nl(mkX(), outer[0][1], inner[3][1], 'comp')))
+        out.append(('(L2sq o exp) * L2sq', snm, lambda mkX=mkX: _nl(mkX(), outer[0][1], inner[0][1], 'prod')))
+        out.append(('(lin o square) / (L2sq + 1)', snm, lambda mkX=mkX: _nl(mkX(), outer[1][1], inner[2][1], 'quot')))
+    # a nonlinear operator into ANOTHER space: point-wise norm of a vector field
+    out.append(('L2sq o PointwiseNorm', 'power', lambda: _nl_pw()))
+    return out
+
+
+def _nl(X, mko, mki, mode):
+    S = fu.S
+    import odl
+    f, op = mko(X), mki(X)
+    F = f * op
+    doc = lambda x: f(op(x))
+    if mode == 'comp':
+        op2 = odl.ufunc_ops.sin(X)
+        F, doc = F * op2, (lambda x: f(op(op2(x))))
+    elif mode == 'prod':
+        g = S.L2NormSquared(X)
+        F, doc = S.FunctionalProduct(F, g), (lambda x: f(op(x)) * g(x))
+    elif mode == 'quot':
+        g = S.L2NormSquared(X) + 1.0
+        F, doc = S.FunctionalQuotient(F, g), (lambda x: f(op(x)) / g(x))
+    return X, F, doc
+
+
+def _nl_pw():
+    import odl
+    S = fu.S
+    X = odl.uniform_discr(0, 1.5, 3)
+    V = X ** 2
+    pw = odl.PointwiseNorm(V)
+    f = S.L2NormSquared(X)
+    return V, f * pw, (lambda x: f(pw(x)))
+
+
+def nonlinear_program(arg):
+    idx, seed = arg
+    name, snm, mk = nonlinear_recipes()[idx]
+    res = _new_res()
+    X, F, doc = mk()
+    res['classes'] |= {type(F).__name__}
+    rnd = _rnd(name + snm, seed)
+    N = X.size if not isinstance(X, fu.odl.ProductSpace) else sum(s.size for s in X)
+    mkel = lambda v: fu.element(X, None, list(v))
+    sigd = {'leaf': 'FunctionalComp', 'ops': name, 'option': snm, 'space': 'opaque'}
+    # base points off the kinks of the outer functionals (|op(x)| = 0, 1/2) in generic position
+    pts = [[0.75 + 0.5 * i for i in range(N)], [-1.25 + 0.375 * i for i in range(N)]] + \
+          [[rnd.choice([-1, 1]) * (rnd.randint(1, 6) / 4.0 + 0.0625) for _ in range(N)] for _ in range(2)]
+    dirs = [[1.0] + [0.0] * (N - 1), [(-1.0) ** i * (1 + i % 2) for i in range(N)]]
+    G = F.gradient
+    for pi, xv in enumerate(pts):
+        x = mkel(xv)
+        det = {'stage': 'nonlinear', 'recipe': idx, 'name': name, 'option': snm, 'x': xv,
+               'sp': {'kind': 'opaque', 'm': 1, 'n': N, 'W': []}, 'f': mkf('FunctionalComp')}
+        try:
+            fx, dx = float(F(x)), float(doc(x))
+            g = G(x)
+        except Exception as e:
+            res['viol'].append((dict(sigd, clause='call-raises', error=type(e).__name__), dict(det, error=str(e)[:200])))
+            break
+        res['counts'].append(([name, snm, 'value', pi], True))
+        if abs(fx - dx) > SLACK * max(1.0, abs(fx)):
+            res['viol'].append((dict(sigd, clause='value'), dict(det, observed={'F(x)': fx, 'f(op(x))': dx})))
+        ev = fu.rel_event('value', 'eq', fx, dx)
+        if ev:
+            res['events'].append((ev, det))
+        for dv in dirs:
+            d = mkel(dv)
+            gd = float(g.inner(d))
+            try:
+                der = float(F.derivative(x)(d))
+            except Exception as e:
+                res['viol'].append((dict(sigd, clause='derivative-raises', error=type(e).__name__), dict(det, error=str(e)[:200])))
+                continue
+            errs = [abs((float(F(x + h * d)) - float(F(x - h * d))) / (2 * h) - gd) for h in (2.0 ** -9, 2.0 ** -10)]
+            floor = 1e-8 * max(1.0, abs(gd), abs(fx))
+            res['counts'].append(([name, snm, 'cdrel', pi, str(dv)], True))
+            dd = dict(det, d=dv, observed={'e(h)': errs[0], 'e(h/2)': errs[1], '<g,d>': gd, 'deriv': der})
+            if all(math.isfinite(t) for t in errs) and 3 * errs[1] > errs[0] + 3 * floor:
+                res['viol'].append((dict(sigd, clause='central-difference-convergence'), dd))
+            if abs(gd - der) > SLACK * max(1.0, abs(gd)):
+                res['viol'].append((dict(sigd, clause='derivative-differs-from-inner(gradient)'), dd))
+            if all(math.isfinite(t) for t in errs):
+                top = max(errs + [floor])
+                qz = lambda v: int(round(v / top * 2 ** 20))
+                res['events'].append(({'k': 'cdrel', 'e1q': qz(errs[0]), 'e2q': qz(errs[1]), 'floorq': qz(floor), 'opaque': 1}, dd))
+            ev = fu.rel_event('derivative-differs-from-inner(gradient)', 'eq', gd, der)
+            if ev:
+                res['events'].append((ev, dd))
+    return res
+
+
+def driver_jobs(seed, quick):
+    dprogs = driver_programs(quick, random.Random(seed * 7919 + 13))
+    nl = list(range(len(nonlinear_recipes())))
+    if quick:                       # rotate: a third of the relational nonlinear recipes per seed-independent slice
+        nl = [i for i in nl if i % 3 == 0 or i >= len(nl) - 1]
+    return [(driver_program, [(spd, f, seed, 2 if quick else 6, i) for i, (spd, f) in enumerate(dprogs)]),
+            (special_program, [(i, seed) for i in range(6)]),
+            (derived_program, [(i, seed) for i in range(len(derived_recipes()))]),
+            (nonlinear_program, [(i, seed) for i in nl])]
+
+
 def driver_program(arg):
-    spd, f, seed, npts = arg
+    spd, f, seed, npts = arg[:4]
+    idx = arg[4] if len(arg) > 4 else 0
     kind, m, n, W = spd
     sp = fu.sp_desc(kind, m, n, W)
     N = m * n
     res = _new_res()
     rnd = _rnd(json.dumps(f, sort_keys=True) + kind + str(N), seed)
     try:
-        B = GB(sp, f, 0)
+        B = GB(sp, f, 0, layout=(idx + seed) % 4)
     except (NotImplementedError, fu.Unbuildable):
         return res
     except Exception as e:
@@ -580,8 +718,7 @@ def run(ctx):
             progs.append(r)
     ctx.extra['programs_exported'] = len(progs)
     ctx.extra['programs_by_outermost_rule'] = fu.by_rule(progs)       # every action of the machine is exercised
-    drnd = random.Random(ctx.seed * 7919 + 13)
-    dprogs = driver_programs(quick, drnd)
+    dprogs = driver_jobs(ctx.seed, quick)[0][1]
     sink = fu.EventSink(ctx, 'c09')
     classes = set()
     tot = {'nograd': 0, 'lipclaims': 0, 'n': 0}
@@ -601,14 +738,13 @@ def run(ctx):
             if len(ctx.samples) < 5:
                 ctx.sample(s)
     with mp.Pool(min(14, os.cpu_count() or 4)) as pool:
+        for i, r in enumerate(progs):
+            r['idx'] = i
         for o in pool.imap(replay_program, [(r, ctx.seed, quick) for r in progs], chunksize=4):
             absorb(o)
-        for o in pool.imap(driver_program, [(spd, f, ctx.seed, 2 if quick else 6) for spd, f in dprogs], chunksize=4):
-            absorb(o)
-        for o in pool.imap(special_program, [(i, ctx.seed) for i in range(6)]):
-            absorb(o)
-        for o in pool.imap(derived_program, [(i, ctx.seed) for i in range(len(derived_recipes()))]):
-            absorb(o)
+        for fn, args in driver_jobs(ctx.seed, quick):
+            for o in pool.imap(fn, args, chunksize=2):
+                absorb(o)
     stage['replay_and_driver'] = round(time.time() - t0 - stage['tlc_model_export'], 1)
     ctx.traces += tot['n']
     ctx.extra['programs_without_gradient'] = tot['nograd']
@@ -627,6 +763,9 @@ def run(ctx):
             cl = cl.replace('(q)', '')
             if det['stage'] == 'special':
                 cl = 'moreau-envelope-gradient' if det.get('kind') == 'moreau-envelope' else cl
+            if det['stage'] == 'nonlinear':
+                fu.report(ctx, {'leaf': 'FunctionalComp', 'ops': det['name'], 'option': det['option'], 'space': 'opaque', 'clause': cl}, d)
+                continue
             if det['stage'] == 'derived':
                 fu.report(ctx, {'leaf': det['name'], 'ops': det['name'], 'space': 'opaque', 'rule': det['rule'], 'clause': cl}, d)
                 continue
@@ -642,6 +781,13 @@ def run(ctx):
 def replay(body):
     d = body['detail']
     clause = body['signature']['clause']
+    if d['stage'].endswith('nonlinear'):
+        res = nonlinear_program((d['recipe'], body.get('seed', 0)))
+        hit = [s for s, _ in res['viol'] if s['clause'] == clause]
+        for s, dd in hit[:3]:
+            print('observed :', s['clause'], s['ops'], dd.get('observed'))
+        print('REPRODUCED' if hit else 'NOT-REPRODUCED')
+        return 1 if hit else 0
     if d['stage'].endswith('derived'):
         res = derived_program((d['recipe'], body.get('seed', 0)))
         hit = [s for s, _ in res['viol'] if s['clause'] == clause and s.get('rule') == body['signature'].get('rule')]
@@ -659,7 +805,7 @@ def replay(body):
     sp, f = d['sp'], d['f']
     print('program  :', fu.shape(f), 'on', sp['kind'], 'W =', sp['W'])
     try:
-        B = GB(sp, f, d.get('variant', 0))
+        B = GB(sp, f, d.get('variant', 0), layout=d.get('layout', 0))
     except Exception as e:
         print('construction raises', type(e).__name__, e)
         print('REPRODUCED' if clause == 'construction-raises' else 'NOT-REPRODUCED')
